@@ -327,7 +327,16 @@ fn parse_number<'a, T: Iterator<Item = &'a Token>>(
             "#x" => radix = 16,
             _ => panic!("unexpected number prefix {}", token.span(text)),
         }
+        let prefix = token;
         token = cur.next().ok_or(Incomplete)?;
+        // a prefix is part of the numeral: nothing, not even whitespace, stands between
+        // it and what it applies to
+        if token.span.0 != prefix.span.1 {
+            return Err(Error::SyntaxError(format!(
+                "{} is not followed by a number",
+                prefix.span(text)
+            )));
+        }
     }
 
     // A prefix applies to the atom that follows it (the scanner classes `ff` as a symbol);
